@@ -567,6 +567,9 @@ pub fn run_table<T: ElemT>(lines: &[String], out: &mut String) {
             Err(p) => {
                 if let Some(h) = p.downcast_ref::<HvPanic>() {
                     leak_ok = h.0 == "drop";
+                    if leak_ok {
+                        with_ctx(|c| c.drop_panics += 1);
+                    }
                     let _ = writeln!(out, "RET unwind {}", h.0);
                 } else if let Some(s) = p.downcast_ref::<&str>() {
                     let _ = writeln!(out, "RET libpanic {}", s.replace('\n', " "));
@@ -625,5 +628,6 @@ pub fn run_table<T: ElemT>(lines: &[String], out: &mut String) {
     }
     drop(m);
     let (live, blocks, dd, aerr) = with_ctx(|c| (c.live.len(), c.blocks.len(), c.double_drops.len(), c.alloc_errors.len()));
-    let _ = writeln!(out, "END live={} blocks={} double_drops={} alloc_errors={}", live, blocks, dd, aerr);
+    let drop_panics = with_ctx(|c| c.drop_panics);
+    let _ = writeln!(out, "END live={} blocks={} double_drops={} alloc_errors={} drop_panics={}", live, blocks, dd, aerr, drop_panics);
 }
